@@ -47,7 +47,7 @@ proof={k:cov.get(k) for k in ('obligations','discharged','checker_cmd','trusted_
 ev.update({'property_id':'C10','tier':tier,'seed':int(os.environ.get('VERIF_SEED','0') or 0),'level':'exploration'})
 ev['coverage']={
  'evaluations':res['evaluated'],'distinct_nontrivial':res['nontrivial'],
- 'rule':'BOUNDED, exhaustive within the bound: every permission expression with <= %d binary operators (&&,||) over distinct atoms, with no negation, one negated node, or negated root+last leaf, rendered with minimal TypeScript parentheses in three atom spellings (permits call, includes, bracket-access traverse) and with full parentheses; parsed by the real schema.Parse; truth table of the produced rewrite compared with the TypeScript truth table. Non-trivial = at least one binary operator; every rendering is a distinct input'%ops,
+ 'rule':'BOUNDED, exhaustive within the bound: every permission expression with <= %d binary operators (&&,||) over distinct atoms, with no negation, one negated node, or negated root+last leaf, rendered with minimal TypeScript parentheses in three atom spellings (permits call, includes, bracket-access traverse) and with full parentheses, as the last entry of the permits block with and without a trailing comma; parsed by the real schema.Parse; truth table of the produced rewrite compared with the TypeScript truth table. Non-trivial = at least one binary operator; every rendering is a distinct input'%ops,
  'samples':res['samples'] or ['this.permits.p0(ctx)'],'exhaustive':True,'bound':{'binary_operators':ops},
  'failure_classes':res['failure_counts'],'known_findings':kf,'proof_part':proof,
  'explanation':'the parser-vs-grammar meaning is NOT proved; this is a bounded stand-in as announced in DESIGN.md §4 C10. The proof part (simplifyExpression etc.) is reported under proof_part and in the govc output'}
